@@ -22,7 +22,8 @@ def proof_step(chk, prop):
         chk.violation('translator cannot read the constants it needs from /repo: ' + msg,
                       {'broken': 'tools/extract.py', 'detail': msg}, found_input=False)
         return False
-    if not os.path.exists(f'{COQ}/props/{prop}.v'):
+    registered = ('props/%s.v' % prop) in open(f'{COQ}/_CoqProject').read().split()
+    if not registered:
         chk.notes.append('no props/%s.v yet: correspondence only' % prop)
         return True
     targets = ['props/%s.vo' % prop]
